@@ -25,7 +25,7 @@ const FAR: i64 = T0 + 300 * DAY;
 const KIDS: [(&str, usize, &str); 5] = [
     ("a", 1, "rpki.test/ma/a/"),
     ("a2", 1, "rpki.test/mc/a/"),     // "a" moved to another module (same key)
-    ("b", 2, "rpki.test/mb/b/"),
+    ("b", 2, "Repo2.Rpki.TEST/mb/b/"),  // mixed-case host (hosts are case-insensitive)
     ("c", 3, "rpki.test/ma/c/"),      // shares module ma with "a"
     ("n", 4, "rpki.test/mn/n/"),      // never publishes a manifest
 ];
@@ -91,7 +91,8 @@ fn run(now: i64, root_version: usize, kids: &[&str], update: bool) -> RunSpec {
 fn module_of(uri: &str) -> String {
     let rest = uri.trim_start_matches("rsync://");
     let mut parts = rest.splitn(3, '/');
-    format!("{}/{}", parts.next().unwrap_or(""), parts.next().unwrap_or(""))
+    // The host is case-insensitive; routinator's directories use lower case.
+    format!("{}/{}", parts.next().unwrap_or("").to_ascii_lowercase(), parts.next().unwrap_or(""))
 }
 
 /// The oracle: the property itself on the implementation's output.
